@@ -153,17 +153,20 @@ fn vocab_failures(category: &str, label: &str) -> Vec<(String, String)> {
 /// Reference class table from independent parses: name -> number of template
 /// parameters of the last declaration in index order (includes expanded in place, each file once).
 fn reference_classes(ws: &WsCase) -> BTreeMap<String, usize> {
-    fn walk(ws: &WsCase, path: &str, seen: &mut BTreeSet<String>, out: &mut BTreeMap<String, usize>) {
+    fn walk(ws: &WsCase, path: &str, seen: &mut BTreeSet<String>, out: &mut BTreeMap<String, usize>, defined: &mut BTreeSet<String>) {
         if !seen.insert(path.to_string()) {
             return;
         }
         let Some((_, text)) = ws.files.iter().find(|(p, _)| p == path) else { return };
+        // what is a class of the workspace is decided by the reference reading of the conditionals, not by
+        // the server's preprocessor: disabled lines are blanked before the text is parsed
+        let text = &without_disabled_lines(text, defined);
         let parse = syntax::parse(text);
         let Some(sf) = parse.source_file() else { return };
         let Some(list) = sf.statement_list() else { return };
-        visit(ws, path, &list, seen, out);
+        visit(ws, path, &list, seen, out, defined);
     }
-    fn visit(ws: &WsCase, path: &str, list: &ast::StatementList, seen: &mut BTreeSet<String>, out: &mut BTreeMap<String, usize>) {
+    fn visit(ws: &WsCase, path: &str, list: &ast::StatementList, seen: &mut BTreeSet<String>, out: &mut BTreeMap<String, usize>, defined: &mut BTreeSet<String>) {
         for st in list.statements() {
             match st {
                 ast::Statement::Include(inc) => {
@@ -171,7 +174,7 @@ fn reference_classes(ws: &WsCase) -> BTreeMap<String, usize> {
                         let dir = path.rsplit_once('/').map(|(d, _)| d).unwrap_or("");
                         let target = format!("{dir}/{}", p.value());
                         if ws.files.iter().any(|(q, _)| *q == target) {
-                            walk(ws, &target, seen, out);
+                            walk(ws, &target, seen, out, defined);
                         }
                     }
                 }
@@ -184,22 +187,22 @@ fn reference_classes(ws: &WsCase) -> BTreeMap<String, usize> {
                 }
                 ast::Statement::Let(x) => {
                     if let Some(l) = x.statement_list() {
-                        visit(ws, path, &l, seen, out)
+                        visit(ws, path, &l, seen, out, defined)
                     }
                 }
                 ast::Statement::Foreach(x) => {
                     if let Some(l) = x.body() {
-                        visit(ws, path, &l, seen, out)
+                        visit(ws, path, &l, seen, out, defined)
                     }
                 }
                 ast::Statement::If(x) => {
                     for l in [x.then_body(), x.else_body()].into_iter().flatten() {
-                        visit(ws, path, &l, seen, out)
+                        visit(ws, path, &l, seen, out, defined)
                     }
                 }
                 ast::Statement::Defset(x) => {
                     if let Some(l) = x.statement_list() {
-                        visit(ws, path, &l, seen, out)
+                        visit(ws, path, &l, seen, out, defined)
                     }
                 }
                 _ => {}
@@ -208,7 +211,51 @@ fn reference_classes(ws: &WsCase) -> BTreeMap<String, usize> {
     }
     let mut out = BTreeMap::new();
     let mut seen = BTreeSet::new();
-    walk(ws, &ws.root, &mut seen, &mut out);
+    // (macros are per file in this reference: the menu defines and tests a macro in the same statement)
+    walk(ws, &ws.root, &mut seen, &mut out, &mut BTreeSet::new());
+    out
+}
+
+/// Line-based reference reading of `#define` / `#ifdef` / `#ifndef` / `#else` / `#endif` written at the start
+/// of a line (the only layout the class-completion menu uses): the text with every disabled line and every
+/// directive line blanked.
+fn without_disabled_lines(text: &str, defined: &mut BTreeSet<String>) -> String {
+    if !text.contains('#') {
+        return text.to_string();
+    }
+    // (parent enabled, condition, in else)
+    let mut stack: Vec<(bool, bool, bool)> = Vec::new();
+    let mut out = String::new();
+    for line in text.split_inclusive('\n') {
+        let enabled = stack.last().map(|(p, c, e)| *p && (*c != *e)).unwrap_or(true);
+        let body = line.trim_end();
+        let mut keep = enabled;
+        if let Some(name) = body.strip_prefix("#define ") {
+            if enabled {
+                defined.insert(name.trim().to_string());
+            }
+            keep = false;
+        } else if let Some(name) = body.strip_prefix("#ifdef ") {
+            stack.push((enabled, defined.contains(name.trim()), false));
+            keep = false;
+        } else if let Some(name) = body.strip_prefix("#ifndef ") {
+            stack.push((enabled, !defined.contains(name.trim()), false));
+            keep = false;
+        } else if body == "#else" {
+            if let Some(f) = stack.last_mut() {
+                f.2 = true;
+            }
+            keep = false;
+        } else if body == "#endif" {
+            stack.pop();
+            keep = false;
+        }
+        if keep {
+            out.push_str(line);
+        } else {
+            out.extend(line.chars().map(|c| if c == '\n' { '\n' } else { ' ' }));
+        }
+    }
     out
 }
 
@@ -370,7 +417,7 @@ impl Engine for C20 {
         format!(
             "every label the server offers at file level, in a type position, in a value position and after '!' (obtained from the real completion handler; the '!' additions as the multiset difference with/without trigger); \
              lexer probes: every lowercase word of length <= {}, every single-edit neighbour (deletion, substitution, insertion over [a-z0-9]) of every offered or source-listed operator name, and the names in lexer.rs's operator arms; \
-             class completion at every offset of every parent-class name of every class/def of every file (root and included) of every workspace over the stress menu extended by 16 classes whose parameter defaults have no computable type (!cond, undefined name, class name as a value, bit range of an integer, unresolved field access) and 8 classes with parameters of every type form (bits<64>, bits<65>, bits<96>, list<bits<128>>, list<list<string>>, dag, code, bit) (<= {} statements, one- and two-file) and every seed. \
+             class completion at every offset of every parent-class name of every class/def of every file (root and included) of every workspace over the stress menu extended by 16 classes whose parameter defaults have no computable type (!cond, undefined name, class name as a value, bit range of an integer, unresolved field access) and 8 classes with parameters of every type form (bits<64>, bits<65>, bits<96>, list<bits<128>>, list<list<string>>, dag, code, bit) and 8 statements with classes in enabled and disabled conditional regions (one behind a nested #else) (<= {} statements, one- and two-file) and every seed. \
              non-trivial = offered labels, probes the lexer accepts as operators, workspaces with a parent-class position.",
             tier.pick(4, 5),
             tier.pick(2, 3)
@@ -469,6 +516,9 @@ impl Engine for C20 {
                 // every type form is a parameter type: bit strings wider than a machine word, nested lists, dag, code
                 "class X<bits<96> a, int b, list<bits<128>> c> : Y;",
                 "class X<bits<64> a, bits<65> b = 0, dag c, code d, list<list<string>> e, bit g> : Y;",
+                // classes in text the conditionals disable are no classes of the workspace (also behind a nested #else)
+                "#ifdef NEVER\n#ifdef NEVER2\nclass X<int a>;\n#else\nclass X<int a, int b>;\n#endif\nclass Y<int a, int b, int c>;\n#endif\ndef dX : Y;",
+                "#define ON\n#ifdef ON\nclass X<int a, int b> : Y;\n#else\nclass X;\n#endif\ndef eX : X<1, 2>;",
             ] {
                 for x in ["A", "B"] {
                     for y in ["A", "B"] {
